@@ -29,6 +29,11 @@ def history(rng):
         # the same text evaluated / loaded twice with a macro it uses redefined in between
         use = "(list (cm 1) (cm 2))"
         return ["(defmacro cm (x) (list '+ x 10))", use, "(defmacro cm (x) (list '* x 10))", use, use]
+    if rng.random() < 0.06:
+        # a long history of small programs: a context that has evaluated / loaded dozens of texts behaves like a young one
+        small = ["(setq a (cons 1 (if (consp a) a nil)))", "(setq c (if (numberp c) (+ c 1) 0))", "(length a)", "(list a b c)", "(defun lf (x) (list x c))", "(lf 2)",
+                 "(car 5)", "(setq b (gensym))", "(tick 3)", "novar"]
+        return [rng.choice(small) for _ in range(rng.randint(18, 45))]
     if rng.random() < 0.6:
         h.append(" ".join(g.defun(2) for _ in range(rng.randint(1, 2))))
     for _ in range(rng.randint(2, 5)):
